@@ -41,7 +41,14 @@ func main() {
 	codec := flag.String("codec", "", "debug: list the codec events of functions whose name contains this string")
 	bounds := flag.String("bounds", "", "debug: list the BOUND obligations of functions whose name contains this string")
 	noEvidence := flag.Bool("no-evidence", false, "do not write evidence files (self test on scratch copies)")
+	explain := flag.Bool("explain", false, "print, as markdown, what every registered check decides and does not decide (the text that also goes into the evidence files)")
 	flag.Parse()
+	if *explain {
+		for _, pc := range props.All() {
+			fmt.Printf("#### %s – %s\n\n*Engines:* %s.\n\n%s\n\n*Trusted:* %s.\n\n", pc.ID, pc.Title, pc.Engines, pc.Explanation, strings.Join(pc.Assumptions, "; "))
+		}
+		return
+	}
 
 	if *tier == "" {
 		*tier = os.Getenv("VERIF_TIER")
